@@ -32,6 +32,13 @@ NACK_REASONS = [150, 0, 1, 49, 50, 51, 100, 151, 255, 256, 1000, 65536, 2 ** 32,
 # payload lengths of the "long" prefix: with them the command name crosses 253 bytes before / after the digest component
 LONG_LENS = list(range(150, 265, 5)) + [181, 182, 183, 184, 214, 215, 216, 217, 218, 219]
 STATUS = {'r200': 200, 'r400': 400, 'r403': 403, 'r503': 503}
+# The spec's reply kinds r400 / r403 / r503 are three representatives of "a status other than 200". The executor
+# instantiates them with codes of every class: other 2xx, 1xx / 3xx, 0, codes >= 600, codes whose low bits are 200.
+STATUS_CODES = {'r200': [200],
+                'r400': [400, 201, 204, 299, 399, 404],
+                'r403': [403, 0, 100, 199, 300, 409],
+                'r503': [503, 600, 65536 + 200, 2 ** 32 + 200, 2 ** 64 - 1, 500]}
+
 GARBAGE = b'\xde\xad\xbe\xef\x00garbage'
 
 
@@ -65,8 +72,10 @@ class RegFace(Face):
     async def run(self):
         await self.stop
 
+    local = True
+
     def isLocalFace(self):
-        return True
+        return self.local
 
 
 class _V2App(appv2.NDNApp):
@@ -128,7 +137,7 @@ def _control_parameters(value):
     return _name_uri(comps), [t for t, _ in fields]
 
 
-def decode_command(wire, fmt):
+def decode_command(wire, fmt, local=True):
     """Strictly decode one command Interest. Returns dict(verb, prefix, ts, nonce) or raises WireError
     naming the failed check."""
     try:
@@ -154,7 +163,8 @@ def decode_command(wire, fmt):
     if len(cvals) < 5:
         raise WireError('command-name-length')
     head = [v for t, v, _ in cvals[:4]]
-    if any(t != GENERIC for t, _, _ in cvals[:5]) or head[:3] != [b'localhost', b'nfd', b'rib']:
+    # commands go to /localhost/nfd on a local face, to /localhop/nfd on a face to a remote forwarder
+    if any(t != GENERIC for t, _, _ in cvals[:5]) or head[:3] != [b'localhost' if local else b'localhop', b'nfd', b'rib']:
         raise WireError('command-name-prefix', repr(head))
     verb = head[3].decode('ascii', 'replace')
     if verb not in ('register', 'unregister'):
@@ -251,9 +261,10 @@ def control_response(status, text, body):
 
 
 def data_packet(name_tlv, content, bad_sig=False):
-    """Data with DigestSha256 signature over Name..SignatureInfo; name_tlv is the full Name TLV."""
+    """Data with DigestSha256 signature over Name..SignatureInfo; name_tlv is the full Name TLV.
+    content None: a Data packet without Content element."""
     meta = T.write_tlv([(0x14, [(0x19, 1000)])])
-    cont = T.write_tlv([(0x15, content)])
+    cont = T.write_tlv([(0x15, content)]) if content is not None else b''
     sinfo = T.write_tlv([(0x16, [(0x1b, 0)])])
     dig = _sha(name_tlv, meta, cont, sinfo)
     if bad_sig:
@@ -265,11 +276,24 @@ def nack_packet(interest_wire, reason=150):
     return T.write_tlv([(LP, [(0x0320, [(0x0321, reason)]), (0x50, bytes(interest_wire))])])
 
 
-def make_reply(kind, body, cmd, interest_wire, garbage=GARBAGE):
+def garbage_variants(prefix):
+    """Content values that are not a well-formed ControlResponse (None = no Content element at all): register and
+    unregister must report failure for each, whatever status code may be hidden in it."""
+    ok = control_response(200, 'OK', {'name': prefix, 'face_id': 300, 'origin': 0, 'cost': 0, 'flags': 1})
+    return [GARBAGE, b'', None, b'\x65', b'\x65\x05\x66', b'\x65\xfd', ok[:-3], ok[:7],
+            T.write_tlv([(CP, [(NAME, _name_tree(prefix))])]),                       # Content of another TLV type
+            T.write_tlv([(0x65, [(0x67, b'OK'), (0x66, 200)])]),                     # StatusText before StatusCode
+            T.write_tlv([(0x65, [(0x66, 200), (0x67, b'OK'), (CP, [(0x69, 300), (NAME, _name_tree(prefix))])])]),  # body out of order
+            T.write_tlv([(0x65, [(0x66, 200), (0x67, b'\xff\xfe OK')])]),            # StatusText that is not UTF-8
+            T.write_tlv([(0x65, [(0x66, b'\x00\x00\xc8'), (0x67, b'OK')])])]        # 3-byte NonNegativeInteger
+
+
+def make_reply(kind, body, cmd, interest_wire, garbage=GARBAGE, code=None):
     """-> wire to deliver, or None for silence. cmd: decode_command() result of the Interest answered."""
     if kind in STATUS:
         b = {'name': cmd['prefix'], 'face_id': 300, 'origin': 0, 'cost': 0, 'flags': 1} if body else None
-        return data_packet(cmd['name_tlv'], control_response(STATUS[kind], 'OK' if kind == 'r200' else 'refused', b))
+        return data_packet(cmd['name_tlv'], control_response(STATUS[kind] if code is None else code,
+                                                             'OK' if kind == 'r200' else 'refused', b))
     if kind == 'garbage':
         return data_packet(cmd['name_tlv'], garbage)
     if kind == 'vfail':
@@ -299,6 +323,10 @@ class Scenario:
         self.reads = 0
         _time.time = self._now            # Session.__exit__ restores the real function
         self.face = RegFace()
+        self.local = variant % 4 != 3          # every fourth scenario talks to a remote forwarder
+        self.face.local = self.local
+        self.nstat = variant
+        self.ngarb = variant
         # Two applications live in the process, each with its own face, both built the DEFAULT way (appv2: no
         # registerer argument, so client_conf.default_registerer() is used). The second one is a bystander: it is
         # connected together with the first and never asked to do anything - every command of the application under
@@ -365,7 +393,7 @@ class Scenario:
             w = self.face.out[self.seen]
             self.seen += 1
             try:
-                c = decode_command(w, self.front)
+                c = decode_command(w, self.front, self.local)
                 c['wire'] = w
                 c['ts'] -= T0_MS
                 self.cmds.append(c)
@@ -423,7 +451,15 @@ class Scenario:
     def reply(self, idx, kind, body, d=0, garbage=GARBAGE):
         """answer the idx-th (0-based) command Interest on the wire."""
         cmd = self.cmds[idx]
-        wire = make_reply(kind, body, cmd, cmd['wire'], garbage)
+        code = None
+        if kind in STATUS_CODES:
+            code = STATUS_CODES[kind][self.nstat % len(STATUS_CODES[kind])]
+            self.nstat += 1
+        if kind == 'garbage' and garbage is GARBAGE:
+            gv = garbage_variants(cmd['prefix'])
+            garbage = gv[self.ngarb % len(gv)]
+            self.ngarb += 1
+        wire = make_reply(kind, body, cmd, cmd['wire'], garbage, code)
         if kind == 'nack':
             wire = nack_packet(cmd['wire'], NACK_REASONS[self.nacks % len(NACK_REASONS)])
             self.nacks += 1
